@@ -108,10 +108,6 @@ func (rndb *RowNamespaceDataBlock) Populate(ctx context.Context, eds eds.Accesso
 
 func (rndb *RowNamespaceDataBlock) UnmarshalFn(root *share.AxisRoots) UnmarshalFn {
 	return func(cntrData, idData []byte) error {
-		if !rndb.Container.IsEmpty() {
-			return nil
-		}
-
 		rndid, err := shwap.RowNamespaceDataIDFromBinary(idData)
 		if err != nil {
 			return fmt.Errorf("unmarhaling RowNamespaceDataID: %w", err)
@@ -134,7 +130,11 @@ func (rndb *RowNamespaceDataBlock) UnmarshalFn(root *share.AxisRoots) UnmarshalF
 			return fmt.Errorf("validating RowNamespaceData for %+v: %w", rndb.ID, err)
 		}
 
-		rndb.Container = cntr
+		// every body is verified, also when the Block is already populated: the hasher must
+		// never accept unverified bytes. The container populated first is kept.
+		if rndb.Container.IsEmpty() {
+			rndb.Container = cntr
+		}
 		return nil
 	}
 }
